@@ -117,12 +117,17 @@ def cases(draw, tier):
     case['tx'] = draw(st.one_of(st.sampled_from(TX), st.floats(0.005, 0.6)))
     case['ty'] = draw(st.one_of(st.sampled_from(TX), st.floats(0.005, 0.6)))
     case['extremes'] = draw(st.booleans())
+    case['int_points'] = draw(st.booleans())
     return case
 
 
 def oracle(case, rec):
     L = lib.lib()
-    p = lib.pts_of(case)
+    pf = lib.pts_of(case)
+    p = pf
+    if case.get('int_points') and np.all(pf == np.floor(pf)) and float(np.max(np.abs(pf))) < 2 ** 30:
+        p = pf.astype(np.int64)         # an integer-typed curve is the same curve
+        rec.tag('points:int64')
     n = len(p)
     src = case['reduction']
     if src == 'set':
@@ -166,7 +171,7 @@ def oracle(case, rec):
         if r is not None:
             gaps = [(int(a), int(b)) for a, b in zip(reduced[:-1], reduced[1:])]
             try:
-                want, survived = model(p, gaps, [int(reduced[k]) for k in kpos], tx, ty, ext)
+                want, survived = model(pf, gaps, [int(reduced[k]) for k in kpos], tx, ty, ext)
                 rec.check(r == want, 'even:differs-from-model',
                           'got %r want %r reduced=%r knees=%r tx=%r ty=%r ext=%r' % (r, want, reduced.tolist(), kpos, tx, ty, ext))
                 rec.nontrivial |= survived
@@ -184,7 +189,7 @@ def oracle(case, rec):
                 marks = [0] + knees + [n - 1]
                 gaps = [(a, b) for a, b in zip(marks[:-1], marks[1:])]
                 try:
-                    want, survived = model(p, gaps, knees, tx, ty, ext)
+                    want, survived = model(pf, gaps, knees, tx, ty, ext)
                     rec.check(r == want, 'markers:differs-from-model',
                               'got %r want %r knees=%r tx=%r ty=%r ext=%r' % (r, want, knees, tx, ty, ext))
                     rec.nontrivial |= survived
